@@ -49,7 +49,7 @@ def oracle(tier, rng, deep=False):
     from scipy import sparse
     failures, samples = [], []
     ev = nontriv = 0
-    nrep = 3 if tier == "quick" and not deep else 15
+    nrep = 3 if tier == "quick" and not deep else (9 if tier == "quick" else 15)   # quick + broken obligation: 3x the quick search
     for _ in range(nrep):
         for name, make, ygen, params in datafit_instances(rng):
             n, p = rng.randint(3, 7), rng.randint(1, 4)
